@@ -15,6 +15,17 @@ allf = []
 for f in sorted(os.listdir(fdir)):
     if f.endswith(".json"):
         allf.extend(json.load(open(os.path.join(fdir, f))))
+import subprocess
+_log = subprocess.run(["git", "-C", "/repo", "log", "--format=%h\t%s", "132c586..HEAD"], capture_output=True, text=True).stdout
+_by_subject = {l.split("\t", 1)[1].strip(): l.split("\t", 1)[0] for l in _log.strip().split("\n") if "\t" in l}
+for e in allf:
+    if e.get("status") == "fixed":
+        sha = _by_subject.get((e.get("commit_subject") or "").strip()) or e.get("commit")
+        if sha:
+            e["commit"] = sha
+        e["record"] = "fixed: property=%s %s %s" % (e["property"], e.get("commit", "?"), e["title"])
+    else:
+        e["record"] = "open: property=%s %s" % (e["property"], e["title"])
 kf = {"comment": "Authoritative list of genuine defects of mabel-dev/orso found by the checks (merged from findings/*.json by tools/mkmanifest.py). 'open' entries are printed as KNOWN-FINDING and suppress only failures matching their predicate; 'fixed' entries suppress nothing. Never written at check time.", "findings": allf}
 json.dump(kf, open(os.path.join(here, "known_findings.json"), "w"), indent=1)
 checks, na = [], []
